@@ -51,7 +51,7 @@ def node_conds(rng, kind, child_keys):
     if kind == "map":
         cs.append(rng.choice([L("equal_to", {"$type": "dict"}, pre="dtype"), L("is_instance", {"$type": "dict"}),
                               L("in_", [{"$type": "dict"}, {"$type": "list"}], pre="dtype")]))
-        skeys = [k for k in child_keys if type(k) is str]
+        skeys = [k for k in child_keys if type(k) in (str, int)]
         if skeys and rng.random() < 0.8:
             extra = [rng.choice(PLAIN_KEYS + SENT)] if rng.random() < 0.4 else []
             if rng.random() < 0.7:
